@@ -252,10 +252,231 @@ Proof.
   - reflexivity.
 Qed.
 
-Lemma item_to_json_pure v : json_pure v = true -> plain_item v = true -> item_to_json X false v = Ok v.
+(* ---- literal mappings that are neither escaped by the serialiser nor touched by from_spec ---- *)
+
+Definition str_keys (d : list (pyval * pyval)) : bool :=
+  forallb (fun kv => match fst kv with VStr _ => true | _ => false end) d.
+Definition unskv (d : list (pyval * pyval)) : list (string * pyval) :=
+  map (fun kv => (match fst kv with VStr s => s | _ => "" end, snd kv)) d.
+
+(* string keys, none containing "path"; not a single key reading `path[.m[.m]]` in some letter case *)
+Definition okkeys (d : list (pyval * pyval)) : bool :=
+  str_keys d && forallb (fun kv => negb (str_contains "path" (fst kv))) (unskv d)
+  && negb (single_path_key (unskv d)).
+
+(* list items / mapping values: from_spec looks at them, but no deeper *)
+Definition item2 (v : pyval) : bool := match v with VDict d => okkeys d | _ => true end.
+(* arguments *)
+Definition plain2 (v : pyval) : bool :=
+  match v with
+  | VDict d => okkeys d && forallb item2 (map snd d)
+  | VList l | VTuple l => forallb item2 l
+  | _ => true
+  end.
+Definition q_plain2 (q : dsl) : bool := forallb plain2 (q_args q).
+
+Lemma forallb_impl {Y} (f g : Y -> bool) l :
+  (forall x, f x = true -> g x = true) -> forallb f l = true -> forallb g l = true.
+Proof.
+  intros Hfg. induction l as [|x l IH]; cbn [forallb]; [reflexivity|].
+  intros H. apply andb_true_iff in H as [Hx Hl]. rewrite (Hfg x Hx), (IH Hl). reflexivity.
+Qed.
+
+Lemma plain_item_item2 v : plain_item v = true -> item2 v = true.
 Proof. destruct v; try discriminate; reflexivity. Qed.
 
-Lemma mapM_item_pure l : forallb json_pure l = true -> forallb plain_item l = true -> mapM (item_to_json X false) l = Ok l.
+(* the fragment of C09 is included *)
+Lemma plain_plain2 v : plain v = true -> plain2 v = true.
+Proof.
+  destruct v; try discriminate; try reflexivity; cbn [plain plain2]; apply forallb_impl; exact plain_item_item2.
+Qed.
+
+Lemma plain2_item2 v : plain2 v = true -> item2 v = true.
+Proof.
+  destruct v; try reflexivity. cbn [plain2 item2]. intros H. apply andb_true_iff in H as [H _]. exact H.
+Qed.
+
+Lemma okkeys_inv d : okkeys d = true ->
+  str_keys d = true /\ forallb (fun kv => negb (str_contains "path" (fst kv))) (unskv d) = true
+  /\ single_path_key (unskv d) = false.
+Proof.
+  unfold okkeys. intros H. apply andb_true_iff in H as [H H3]. apply andb_true_iff in H as [H1 H2].
+  apply negb_true_iff in H3. repeat split; assumption.
+Qed.
+
+Lemma str_keys_skv d : str_keys d = true -> map skv (unskv d) = d.
+Proof.
+  unfold str_keys, unskv. induction d as [|[k v] r IH]; cbn [forallb map fst snd]; [reflexivity|].
+  intros H. apply andb_true_iff in H as [Hk Hr]. rewrite (IH Hr).
+  destruct k; try discriminate Hk. reflexivity.
+Qed.
+
+Lemma no_path_key d : str_keys d = true ->
+  forallb (fun kv => negb (str_contains "path" (fst kv))) (unskv d) = true -> has_path_key d = false.
+Proof.
+  unfold str_keys, unskv. induction d as [|[k v] r IH]; cbn [forallb map fst snd has_path_key]; [reflexivity|].
+  intros H1 H2. apply andb_true_iff in H1 as [Hk Hr]. apply andb_true_iff in H2 as [Hc Hr2].
+  destruct k; try discriminate Hk. cbn [fst] in Hc. apply negb_true_iff in Hc. rewrite Hc. cbn [orb]. exact (IH Hr Hr2).
+Qed.
+
+Lemma prefix_contains n s : String.prefix n s = true -> str_contains n s = true.
+Proof. intros H. destruct s; cbn [str_contains]; rewrite H; reflexivity. Qed.
+
+(* a string containing c :: n contains n *)
+Lemma str_contains_tail c n s : str_contains (String c n) s = true -> str_contains n s = true.
+Proof.
+  induction s as [|a r IH]; intros H.
+  - cbn in H. discriminate H.
+  - cbn [str_contains] in H. apply orb_true_iff in H as [H|H].
+    + cbn [String.prefix] in H.
+      assert (Hp : String.prefix n r = true).
+      { match type of H with (if ?b then _ else _) = true => destruct b; [exact H|discriminate H] end. }
+      cbn [str_contains]. rewrite (prefix_contains n r Hp). apply orb_true_r.
+    + cbn [str_contains]. rewrite (IH H). apply orb_true_r.
+Qed.
+
+Lemma okkeys_items_ok d : okkeys d = true -> items_ok (unskv d) = true.
+Proof.
+  intros H. destruct (okkeys_inv d H) as [_ [Hc Hs]]. unfold items_ok. rewrite Hs, andb_true_r.
+  revert Hc. apply forallb_impl. intros kv Hkv. unfold key_clean. apply negb_true_iff. apply negb_true_iff in Hkv.
+  destruct (str_contains esc_code (fst kv)) eqn:E; [|reflexivity].
+  unfold esc_code in E. rewrite (str_contains_tail _ _ _ E) in Hkv. discriminate Hkv.
+Qed.
+
+(* ... such a mapping is not a path spec *)
+Lemma pfs_okmap d : okkeys d = true -> pfs (VDict d) = Err MalformedPath.
+Proof.
+  intros H. destruct (okkeys_inv d H) as [Hk _].
+  rewrite <- (str_keys_skv d Hk). exact (pfs_kwd (unskv d) (okkeys_items_ok d H)).
+Qed.
+
+Lemma try_path_item2 v : item2 v = true -> try_path pfs v = Ok (inr v).
+Proof.
+  intros H. unfold try_path. destruct v; try (rewrite pfs_nondict by reflexivity; reflexivity).
+  rewrite (pfs_okmap d H). reflexivity.
+Qed.
+
+Lemma coerce_items_item2 l : forallb item2 l = true -> coerce_items pfs l = Ok (map inr l).
+Proof.
+  induction l as [|v l IH]; cbn [forallb coerce_items map]; [reflexivity|].
+  intros H. apply andb_true_iff in H as [Hv Hl]. rewrite (try_path_item2 v Hv), (IH Hl). reflexivity.
+Qed.
+
+Definition inr_kv (kv : pyval * pyval) : pyval * (pathterm pyval + pyval) := (fst kv, inr (snd kv)).
+
+Lemma coerce_kvs_item2 d : forallb item2 (map snd d) = true -> coerce_kvs pfs d = Ok (map inr_kv d).
+Proof.
+  induction d as [|[k v] r IH]; cbn [map snd forallb coerce_kvs]; [reflexivity|].
+  intros H. apply andb_true_iff in H as [Hv Hr]. rewrite (try_path_item2 v Hv). cbn [bind]. rewrite (IH Hr). reflexivity.
+Qed.
+
+Lemma item_val_inr_kv d : map (fun kv => (fst kv, item_val inert0 (snd kv))) (map inr_kv d) = d.
+Proof. induction d as [|[k v] r IH]; cbn [map inr_kv fst snd item_val]; [reflexivity|]. rewrite IH. reflexivity. Qed.
+
+(* coercion of an argument of the fragment: nothing is taken for a path, nothing is un-escaped *)
+Lemma coerce_plain2 v : plain2 v = true -> exists cv, coerce pfs v = Ok cv /\ cval cv = ALit v.
+Proof.
+  intros H. destruct v; try (eexists; split; reflexivity).
+  - cbn [plain2] in H. exists (CSeq false (map inr l)). split.
+    + cbn [coerce]. rewrite (coerce_items_item2 l H). reflexivity.
+    + cbn [coerced_val]. rewrite item_val_inr. reflexivity.
+  - cbn [plain2] in H. exists (CSeq true (map inr l)). split.
+    + cbn [coerce]. rewrite (coerce_items_item2 l H). cbn [bind]. rewrite no_inl_inr. reflexivity.
+    + cbn [coerced_val]. rewrite item_val_inr. reflexivity.
+  - cbn [plain2] in H. apply andb_true_iff in H as [Hk Hv]. exists (CDict (map inr_kv d)). split.
+    + unfold coerce. rewrite (pfs_okmap d Hk), (coerce_kvs_item2 d Hv). reflexivity.
+    + cbn [coerced_val]. rewrite item_val_inr_kv. reflexivity.
+Qed.
+
+Lemma forallb_plain2_item2 l : forallb plain2 l = true -> forallb item2 l = true.
+Proof. apply forallb_impl. exact plain2_item2. Qed.
+
+Lemma coerce_list2 l : forallb plain2 l = true -> coerce pfs (VList l) = Ok (CSeq false (map inr l)).
+Proof. intros H. cbn [coerce]. rewrite (coerce_items_item2 l (forallb_plain2_item2 l H)). reflexivity. Qed.
+
+Lemma coerce_kwd2 items : items_ok items = true -> forallb plain2 (map snd items) = true ->
+  coerce pfs (kwd items) = Ok (CDict (map (fun kv => (VStr (fst kv), inr (snd kv))) items)).
+Proof.
+  intros Hok Hpl. unfold kwd. change (fun kv : string * pyval => (VStr (fst kv), snd kv)) with skv.
+  unfold coerce. rewrite (pfs_kwd items Hok), coerce_kvs_item2.
+  - cbn [bind]. rewrite map_map. reflexivity.
+  - rewrite map_map. cbn [skv snd]. exact (forallb_plain2_item2 _ Hpl).
+Qed.
+
+(* ---- the value-dependent part of parse_leaf, as C09Proof.leaf_tail_ok, for plain2 ---- *)
+
+Lemma tail_one2 c q v :
+  class_ok c q = true -> q_shape q = (1, false, false)%nat -> q_call q = (q_method q, [v], []) ->
+  plain2 v = true ->
+  exists t, leaf_tail (scls_class c) (q_method q) (q_ctor c q) v = Ok (t, leaf_result c q).
+Proof.
+  intros Hcls Hs Hq Hpl. destruct (coerce_plain2 v Hpl) as [cv [Hc Hv]]. eexists.
+  apply (tail_ok c q v cv [v] [] Hcls Hc).
+  - rewrite Hs. cbn [dispatch_by Nat.eqb negb andb]. rewrite Hv. reflexivity.
+  - pose proof (tie_build c q Hcls) as Hb. unfold built in Hb. rewrite Hq in Hb. exact Hb.
+Qed.
+
+Lemma tail_star2 c q l :
+  class_ok c q = true -> q_shape q = (0, true, false)%nat -> q_call q = (q_method q, l, []) ->
+  forallb plain2 l = true ->
+  exists t, leaf_tail (scls_class c) (q_method q) (q_ctor c q) (VList l) = Ok (t, leaf_result c q).
+Proof.
+  intros Hcls Hs Hq Hpl. eexists.
+  apply (tail_ok c q (VList l) _ l [] Hcls (coerce_list2 l Hpl)).
+  - rewrite Hs. cbn [dispatch_by Nat.eqb negb andb]. rewrite item_arg_inr. reflexivity.
+  - pose proof (tie_build c q Hcls) as Hb. unfold built in Hb. rewrite Hq in Hb. exact Hb.
+Qed.
+
+Lemma tail_kw2 c q items :
+  class_ok c q = true -> (q_shape q = (2, false, false) \/ q_shape q = (0, false, true))%nat ->
+  build_leaf T idlit (scls_name c) (q_method q) [] items = Ok (expected_leaf c q) ->
+  items_ok items = true -> forallb plain2 (map snd items) = true ->
+  exists t, leaf_tail (scls_class c) (q_method q) (q_ctor c q) (kwd items) = Ok (t, leaf_result c q).
+Proof.
+  intros Hcls Hs Hb Hok Hpl. eexists.
+  apply (tail_ok c q (kwd items) _ [] items Hcls (coerce_kwd2 items Hok Hpl)); [|exact Hb].
+  destruct Hs as [Hs|Hs]; rewrite Hs; cbn [dispatch_by Nat.eqb Nat.ltb Nat.leb negb andb];
+    rewrite kw_of_lit; reflexivity.
+Qed.
+
+Lemma leaf_tail_ok2 c q :
+  class_ok c q = true -> q_plain2 q = true -> q_items_ok q = true ->
+  exists t, leaf_tail (scls_class c) (q_method q) (q_ctor c q) (q_spec_val q) = Ok (t, leaf_result c q).
+Proof.
+  intros Hcls Hpl Hit.
+  assert (Hkw : forall r, built_kw c q = Some r -> r = Ok (expected_leaf c q))
+    by (intros r; apply tie_build_kw; exact Hcls).
+  destruct q; cbn [q_spec_val]; unfold q_plain2, q_args in Hpl; cbn [q_call app map snd forallb] in Hpl;
+    rewrite ?andb_true_r in Hpl.
+  (* one named parameter *)
+  1-8,12-13,18,25-26: apply tail_one2; [exact Hcls|reflexivity|reflexivity|exact Hpl].
+  (* two named parameters: the spec is a keyword mapping *)
+  1-3,10-12: apply andb_true_iff in Hpl as [Hp1 Hp2];
+    (apply tail_kw2; [exact Hcls|left; reflexivity|exact (Hkw _ eq_refl)|reflexivity|
+                      cbn [map snd forallb]; rewrite Hp1, Hp2; reflexivity]).
+  (* no parameter *)
+  1-3: apply tail_zero; [exact Hcls|reflexivity|reflexivity].
+  (* *args *)
+  1-6,8-10: apply tail_star2; [exact Hcls|reflexivity|reflexivity|rewrite app_nil_r in Hpl; exact Hpl].
+  (* **items *)
+  apply tail_kw2; [exact Hcls|right; reflexivity| |exact Hit|exact Hpl].
+  pose proof (tie_build c (Q_items_contain items) Hcls) as Hb. exact Hb.
+Qed.
+
+(* ---- the serialiser on such values ---- *)
+
+Lemma escape_map_okkeys d : okkeys d = true -> escape_map d = VDict d.
+Proof.
+  intros H. destruct (okkeys_inv d H) as [Hk [Hc _]]. unfold escape_map. rewrite (no_path_key d Hk Hc). reflexivity.
+Qed.
+
+Lemma item_to_json_pure v : json_pure v = true -> item2 v = true -> item_to_json X false v = Ok v.
+Proof.
+  destruct v; try discriminate; try reflexivity. intros _ H. cbn [item2] in H. cbn [item_to_json].
+  rewrite (escape_map_okkeys d H). reflexivity.
+Qed.
+
+Lemma mapM_item_pure l : forallb json_pure l = true -> forallb item2 l = true -> mapM (item_to_json X false) l = Ok l.
 Proof.
   induction l as [|v l IH]; cbn [forallb mapM]; [reflexivity|].
   intros H1 H2. apply andb_true_iff in H1 as [Hv1 Hl1]. apply andb_true_iff in H2 as [Hv2 Hl2].
@@ -265,16 +486,32 @@ Qed.
 Lemma json_pure_list l : json_pure (VList l) = forallb json_pure l.
 Proof. reflexivity. Qed.
 
-Lemma val_to_json_pure v : json_pure v = true -> plain v = true -> val_to_json X false v = Ok v.
+Lemma json_pure_dict_vals d : json_pure (VDict d) = true -> forallb json_pure (map snd d) = true.
+Proof.
+  cbn [json_pure]. induction d as [|[k v] r IH]; cbn [map snd forallb]; [reflexivity|].
+  destruct k; try discriminate. intros H. apply andb_true_iff in H as [Hv Hr]. rewrite Hv. exact (IH Hr).
+Qed.
+
+Lemma mapM_kv_pure d : forallb json_pure (map snd d) = true -> forallb item2 (map snd d) = true ->
+  mapM (fun kv : pyval * pyval => let* x := item_to_json X false (snd kv) in Ok (fst kv, x)) d = Ok d.
+Proof.
+  induction d as [|[k v] r IH]; cbn [map snd forallb mapM fst]; [reflexivity|].
+  intros H1 H2. apply andb_true_iff in H1 as [Hv1 Hr1]. apply andb_true_iff in H2 as [Hv2 Hr2].
+  rewrite (item_to_json_pure v Hv1 Hv2). cbn [bind]. rewrite (IH Hr1 Hr2). reflexivity.
+Qed.
+
+Lemma val_to_json_pure v : json_pure v = true -> plain2 v = true -> val_to_json X false v = Ok v.
 Proof.
   destruct v; try discriminate; intros Hj Hp; try reflexivity.
-  rewrite json_pure_list in Hj. cbn [plain] in Hp.
-  unfold val_to_json. rewrite (mapM_item_pure l Hj Hp). reflexivity.
+  - rewrite json_pure_list in Hj. cbn [plain2] in Hp.
+    unfold val_to_json. rewrite (mapM_item_pure l Hj Hp). reflexivity.
+  - cbn [plain2] in Hp. apply andb_true_iff in Hp as [Hk Hv]. destruct (okkeys_inv d Hk) as [Hs [Hc _]].
+    unfold val_to_json. rewrite (no_path_key d Hs Hc), (mapM_kv_pure d (json_pure_dict_vals d Hj) Hv). reflexivity.
 Qed.
 
 (* the value written for an argument, and when *)
 Definition val_json (cast : bool) (v : pyval) : pyval := if cast then names v else v.
-Definition arg_ok (cast : bool) (v : pyval) : bool := if cast then types_only v else json_pure v && plain v.
+Definition arg_ok (cast : bool) (v : pyval) : bool := if cast then types_only v else json_pure v && plain2 v.
 
 Lemma val_to_json_ok cast v : arg_ok cast v = true -> val_to_json X cast v = Ok (val_json cast v).
 Proof.
@@ -665,4 +902,186 @@ Proof.
   rewrite self1_S, (step1_leaf _ _ _ (leaf_key_not_binop c q)), parse_leaf_head, (head_leaf c q Hcls).
   cbn [run_head]. destruct (conv_json c q Hty) as [v1 [H1 H2]]. rewrite H1. cbn [bind]. rewrite H2. cbn [bind].
   exact (leaf_tail_ok c q Hcls Hpl Hit).
+Qed.
+
+(* ================================================================== *)
+(* 5. and / or / xor trees                                              *)
+
+Fixpoint tree_json (t : qtree) : pyval :=
+  match t with
+  | QLeaf c q => leaf_json c q
+  | QNull => VDict []
+  | QBin o a b => VDict [(VStr (bop_name o), VList [tree_json a; tree_json b])]
+  end.
+
+Definition leaves_c11 (t : qtree) : bool := forallb (fun cq => leaf_in_c11 (fst cq) (snd cq)) (qleaves t).
+
+Lemma leaves_c11_bin o a b : leaves_c11 (QBin o a b) = true -> leaves_c11 a = true /\ leaves_c11 b = true.
+Proof. unfold leaves_c11. cbn [qleaves]. rewrite forallb_app. apply andb_true_iff. Qed.
+
+Lemma leaves_c11_leaf c q : leaves_c11 (QLeaf c q) = true -> leaf_in_c11 c q = true.
+Proof. unfold leaves_c11. cbn [qleaves forallb fst snd]. rewrite andb_true_r. exact (fun H => H). Qed.
+
+Lemma bop_symbol_name o : bop_symbol o = bop_name o.
+Proof. destruct o; reflexivity. Qed.
+
+(* serialising the condition of a typed tree (null operands included) *)
+Lemma cond_to_json_tree n : leaves_c11 n = true -> cond1_to_json T X (cmapL (cond_of n)) = Ok (tree_json n).
+Proof.
+  unfold cond1_to_json. induction n as [c q| |o a IHa b IHb]; intros H.
+  - cbn [cond_of cond_map cond_to_json tree_json]. apply leaf_to_json_ok.
+    exact (leaf_args_ok c q (leaves_c11_leaf c q H)).
+  - reflexivity.
+  - apply leaves_c11_bin in H as [Ha Hb].
+    cbn [cond_of cond_map cond_to_json tree_json]. rewrite (IHa Ha), (IHb Hb). cbn [bind].
+    rewrite bop_symbol_name. reflexivity.
+Qed.
+
+Lemma tree_json_pure n : leaves_c11 n = true -> json_pure (tree_json n) = true.
+Proof.
+  induction n as [c q| |o a IHa b IHb]; intros H.
+  - exact (leaf_json_pure c q (leaves_c11_leaf c q H)).
+  - reflexivity.
+  - apply leaves_c11_bin in H as [Ha Hb]. cbn [tree_json]. rewrite json_pure_single, json_pure_list.
+    cbn [forallb]. rewrite (IHa Ha), (IHb Hb). reflexivity.
+Qed.
+
+(* parsing it back: as C09Proof.tree_parse, with leaf_json for leaf_spec *)
+Lemma tree_json_parse t : forall f,
+  tree_depth t <= f -> leaves_c11 t = true ->
+  if qmixed (qnorm t) then self1 f (tree_json t) = Err TypeError
+  else exists tm, self1 f (tree_json t) = Ok (tm, cmapL (cond_of (qnorm t))).
+Proof.
+  induction t as [c q| |o a IHa b IHb]; intros f Hd Hin.
+  - cbn [tree_depth] in Hd. destruct f as [|f]; [lia|].
+    cbn [qnorm tree_json]. rewrite qmixed_leaf.
+    destruct (leaf_in_c11_inv c q (leaves_c11_leaf c q Hin)) as [H9 [Hit _]].
+    exact (leaf_json_parse c q f H9 Hit).
+  - cbn [tree_depth] in Hd. destruct f as [|f]; [lia|].
+    cbn [qnorm tree_json]. rewrite qmixed_null, self1_S, step1_null. eexists. reflexivity.
+  - cbn [tree_depth] in Hd. destruct f as [|f]; [lia|].
+    apply leaves_c11_bin in Hin as [Hina Hinb].
+    assert (Hda : tree_depth a <= f) by lia. assert (Hdb : tree_depth b <= f) by lia.
+    specialize (IHa f Hda Hina). specialize (IHb f Hdb Hinb).
+    cbn [tree_json]. rewrite self1_S, step1_bin.
+    destruct (qmixed (qnorm a)) eqn:Ma.
+    { rewrite (qmixed_qnorm_bin_l o a b Ma), IHa. reflexivity. }
+    destruct IHa as [ta Ea]. rewrite Ea. cbn [bind]. rewrite mk_bin_null_l. cbn [bind].
+    destruct (qmixed (qnorm b)) eqn:Mb.
+    { rewrite (qmixed_qnorm_bin_r o a b Mb), IHb. reflexivity. }
+    destruct IHb as [tb Eb]. rewrite Eb. cbn [bind]. rewrite mk_bin_map, mk_bin_cond_of.
+    cbn [qnorm].
+    destruct (q_is_null (qnorm b)); [rewrite Ma; eexists; reflexivity|].
+    destruct (q_is_null (qnorm a)); [rewrite Mb; eexists; reflexivity|].
+    destruct (qmixed (QBin o (qnorm a) (qnorm b))); [reflexivity|eexists; reflexivity].
+Qed.
+
+(* ---- normal forms ---- *)
+
+Fixpoint no_null (t : qtree) : bool :=
+  match t with QLeaf _ _ => true | QNull => false | QBin _ a b => no_null a && no_null b end.
+
+(* a normalised tree is the null condition, or contains no null operand *)
+Lemma qnorm_nf t : q_is_null (qnorm t) = true \/ no_null (qnorm t) = true.
+Proof.
+  induction t as [c q| |o a IHa b IHb]; cbn [qnorm].
+  - right. reflexivity.
+  - left. reflexivity.
+  - destruct (q_is_null (qnorm b)) eqn:Eb; [exact IHa|].
+    destruct (q_is_null (qnorm a)) eqn:Ea; [destruct IHb as [H|H]; [discriminate H|right; exact H]|].
+    right. cbn [no_null]. destruct IHa as [H|H]; [congruence|]. destruct IHb as [H'|H']; [congruence|].
+    rewrite H, H'. reflexivity.
+Qed.
+
+Lemma no_null_not_null t : no_null t = true -> q_is_null t = false.
+Proof. destruct t; cbn [no_null q_is_null]; intros H; try reflexivity. discriminate H. Qed.
+
+Lemma qnorm_no_null t : no_null t = true -> qnorm t = t.
+Proof.
+  induction t as [c q| |o a IHa b IHb]; cbn [no_null qnorm]; intros H; try reflexivity.
+  apply andb_true_iff in H as [Ha Hb]. rewrite (IHa Ha), (IHb Hb).
+  rewrite (no_null_not_null a Ha), (no_null_not_null b Hb). reflexivity.
+Qed.
+
+Lemma qnorm_idem t : qnorm (qnorm t) = qnorm t.
+Proof.
+  destruct (qnorm_nf t) as [H|H].
+  - apply q_is_null_eq in H. rewrite H. reflexivity.
+  - exact (qnorm_no_null _ H).
+Qed.
+
+Lemma depth_qnorm t : tree_depth (qnorm t) <= tree_depth t.
+Proof.
+  induction t as [c q| |o a IHa b IHb]; cbn [qnorm tree_depth]; try lia.
+  destruct (q_is_null (qnorm b)); [lia|]. destruct (q_is_null (qnorm a)); [lia|]. cbn [tree_depth]. lia.
+Qed.
+
+Lemma leaves_c11_qnorm t : leaves_c11 (qnorm t) = leaves_c11 t.
+Proof. unfold leaves_c11. rewrite qleaves_qnorm. reflexivity. Qed.
+
+Lemma leaves_refl_ok n : leaves_c11 n = true -> forallb leaf_refl_ok (qleaves n) = true.
+Proof.
+  apply forallb_impl. intros [c q] H. cbn [fst snd] in H.
+  destruct (leaf_in_c11_inv c q H) as [_ [_ [_ [Hw Hn]]]]. unfold leaf_refl_ok. cbn [snd]. rewrite Hn, Hw. reflexivity.
+Qed.
+
+(* ================================================================== *)
+(* 6. C11                                                               *)
+
+Lemma tree_in_c11_inv t : tree_in_c11 t = true ->
+  leaves_c11 t = true /\ tree_depth t <= 40 /\ qmixed (qnorm t) = false.
+Proof.
+  unfold tree_in_c11. fold (leaves_c11 t). intros H.
+  apply andb_true_iff in H as [H H3]. apply andb_true_iff in H as [H1 H2].
+  apply Nat.leb_le in H2. apply negb_true_iff in H3. repeat split; assumption.
+Qed.
+
+(* The condition of a typed tree in the fragment serialises to pure JSON data (the tree of the
+   written leaves); that data parses back to THE SAME condition (so it filters identically, and
+   serialises to the same data again), and the condition is `==` to itself. *)
+Theorem C11_roundtrip_eq : forall t c,
+  tree_in_c11 t = true -> build_expect (qnorm t) = Ok c ->
+  let c1 := cond_map pyval arg1 ALit c in
+  cond1_to_json T X c1 = Ok (tree_json (qnorm t)) /\ json_pure (tree_json (qnorm t)) = true /\
+  (exists tm, cond1_from_spec T X (tree_json (qnorm t)) = Ok (tm, c1)) /\
+  cond1_eqb T c1 c1 = true.
+Proof.
+  intros t c Hin Hb. destruct (tree_in_c11_inv t Hin) as [Hl [Hd Hm]].
+  unfold build_expect in Hb. rewrite Hm in Hb. injection Hb as <-. cbv zeta.
+  assert (Hln : leaves_c11 (qnorm t) = true) by (rewrite leaves_c11_qnorm; exact Hl).
+  split; [exact (cond_to_json_tree _ Hln)|].
+  split; [exact (tree_json_pure _ Hln)|].
+  split; [|exact (cond_eqb_refl _ (leaves_refl_ok _ Hln))].
+  rewrite cond1_unfold.
+  assert (Hdn : tree_depth (qnorm t) <= 40) by (pose proof (depth_qnorm t); lia).
+  pose proof (tree_json_parse (qnorm t) 40 Hdn Hln) as H. rewrite qnorm_idem, Hm in H. exact H.
+Qed.
+
+Theorem C11_roundtrip : forall t c,
+  tree_in_c11 t = true -> build_expect (qnorm t) = Ok c ->
+  let c1 := cond_map pyval arg1 ALit c in
+  exists j, cond1_to_json T X c1 = Ok j /\ json_pure j = true /\
+    exists tm c2, cond1_from_spec T X j = Ok (tm, c2) /\ cond1_eqb T c2 c1 = true /\ cond1_to_json T X c2 = Ok j.
+Proof.
+  intros t c Hin Hb. destruct (C11_roundtrip_eq t c Hin Hb) as [Hj [Hp [[tm Hs] He]]]. cbv zeta.
+  exists (tree_json (qnorm t)). split; [exact Hj|]. split; [exact Hp|].
+  exists tm, (cond_map pyval arg1 ALit c). split; [exact Hs|]. split; [exact He|exact Hj].
+Qed.
+
+(* in the fragment the tree always builds *)
+Lemma tree_in_c11_builds t : tree_in_c11 t = true -> build_expect (qnorm t) = Ok (cond_of (qnorm t)).
+Proof. intros H. destruct (tree_in_c11_inv t H) as [_ [_ Hm]]. unfold build_expect. rewrite Hm. reflexivity. Qed.
+
+(* one leaf: what is written is {"<class label>.<callable>": <arguments>} *)
+Theorem C11_leaf : forall c q,
+  leaf_in_c11 c q = true ->
+  let c1 := cond_map pyval arg1 ALit (CLeaf (expected_leaf c q)) in
+  cond1_to_json T X c1 = Ok (leaf_json c q) /\ json_pure (leaf_json c q) = true /\
+  (exists tm, cond1_from_spec T X (leaf_json c q) = Ok (tm, c1)) /\
+  cond1_eqb T c1 c1 = true.
+Proof.
+  intros c q H.
+  assert (Hin : tree_in_c11 (QLeaf c q) = true).
+  { unfold tree_in_c11. cbn [qleaves forallb fst snd tree_depth qnorm]. rewrite H, qmixed_leaf. reflexivity. }
+  exact (C11_roundtrip_eq (QLeaf c q) _ Hin (tree_in_c11_builds _ Hin)).
 Qed.
